@@ -1145,6 +1145,9 @@ impl<'w> Gen<'w> {
             vec![names[0].clone(), names[0].clone()],
             vec![names[n - 3].clone(), names[0].clone(), names[0].clone(), names[n - 2].clone(), names[n - 2].clone(), names[n - 3].clone()],
             names.iter().rev().cloned().collect(),
+            // long requests: every collection, and every collection three times over (one answer per name, in order)
+            names.iter().take(colls.len()).cloned().collect(),
+            names.iter().take(colls.len()).cycle().take(3 * colls.len().min(30)).cloned().collect(),
         ];
         let mut rnd: Vec<RawAddr> = vec![];
         for _ in 0..(2 + self.rng.below(6)) {
@@ -1598,7 +1601,7 @@ pub fn default_world() -> Sim {
 
 /// many collections (royalty gate), few users
 pub fn royalty_world(n_colls: usize) -> Sim {
-    Sim::new(Config { n_users: 3, n_cw20: 1, n_cw721: n_colls, nfts_per_user_per_collection: 1, n_hostile: 0, ..Config::default() })
+    Sim::new(Config { n_users: 3, n_cw20: 1, n_cw721: n_colls, nfts_per_user_per_collection: 2, n_hostile: 0, ..Config::default() })
 }
 
 /// many native denominations (25 / 26 assets)
